@@ -422,6 +422,57 @@ pub mod u12 {
         pub n_mismatch_plain: u64,
         pub mismatch_neg: Vec<String>,
         pub n_mismatch_neg: u64,
+        pub mismatch_nl: Vec<String>,
+        pub n_mismatch_nl: u64,
+    }
+
+    /// structural equality of two REAL trees, leaves identified by the token they start at
+    /// (`b` was parsed from the same tokens preceded by `shift` Newline tokens); inner spans are not compared
+    fn same_shape(a: &Expr, b: &Expr, shift: usize) -> bool {
+        match (&*a.kind, &*b.kind) {
+            (ExprKind::Variable(_), ExprKind::Variable(_)) | (ExprKind::Int(_), ExprKind::Int(_)) | (ExprKind::Float(_), ExprKind::Float(_)) => {
+                a.loc.lo + shift == b.loc.lo && a.loc.hi + shift == b.loc.hi
+            }
+            (ExprKind::BinOp(l1, o1, r1), ExprKind::BinOp(l2, o2, r2)) => o1 == o2 && same_shape(l1, l2, shift) && same_shape(r1, r2, shift),
+            (ExprKind::Unop(o1, x1), ExprKind::Unop(o2, x2)) => {
+                (match (o1, o2) {
+                    (PrefixOp::Minus, PrefixOp::Minus) => true,
+                    (PrefixOp::Not, PrefixOp::Not) => true,
+                    _ => false,
+                }) && same_shape(x1, x2, shift)
+            }
+            (ExprKind::FuncCall(f1, a1), ExprKind::FuncCall(f2, a2)) => a1.len() == a2.len() && same_shape(f1, f2, shift),
+            (ExprKind::MemberAccess(x1, _), ExprKind::MemberAccess(x2, _)) => same_shape(x1, x2, shift),
+            (ExprKind::IndexAccess(x1, i1), ExprKind::IndexAccess(x2, i2)) => same_shape(x1, x2, shift) && same_shape(i1, i2, shift),
+            (ExprKind::Unwrap(x1), ExprKind::Unwrap(x2)) => same_shape(x1, x2, shift),
+            (ExprKind::Try(x1), ExprKind::Try(x2)) => same_shape(x1, x2, shift),
+            _ => false,
+        }
+    }
+
+    /// C29: the real parse_expr on `Newline Newline s` against the real parse_expr_bp(0) on `s`
+    fn leading_newlines(tags: &[TokenTag], got: &Result<Rc<Expr>, Box<Error>>, p: &Parser) -> Option<&'static str> {
+        const K: usize = 2;
+        let mut tokens: Vec<Token> = (0..K).map(|i| tok(kind_for_tag(TokenTag::Newline), i)).collect();
+        tokens.extend(tags.iter().enumerate().map(|(i, t)| tok(kind_for_tag(*t), i + K)));
+        let mut p2 = Parser::new(tokens.into(), 0, MAXN + K + 2);
+        let got2 = p2.parse_expr();
+        match (got, &got2) {
+            (Ok(a), Ok(b)) => {
+                if p.errors.is_empty() != p2.errors.is_empty() {
+                    Some("diagnostics differ with two blank lines in front")
+                } else if !same_shape(a, b, K) {
+                    Some("a different tree is built with two blank lines in front")
+                } else if p2.index != p.index + K {
+                    Some("a different number of tokens is consumed with two blank lines in front")
+                } else {
+                    None
+                }
+            }
+            (Err(_), Err(_)) => None,
+            (Ok(_), Err(_)) => Some("rejected with two blank lines in front, accepted without"),
+            (Err(_), Ok(_)) => Some("accepted with two blank lines in front, rejected without"),
+        }
     }
 
     fn has_neg_adjacent(tags: &[TokenTag]) -> bool {
@@ -436,7 +487,7 @@ pub mod u12 {
     }
 
     /// -> (verdict: None = agree, Some(why) = differ; accepted; 1 + highest position read by either parser)
-    fn run_one(tags: &[TokenTag], right_assoc: bool) -> (Option<&'static str>, bool, usize) {
+    fn run_one(tags: &[TokenTag], right_assoc: bool) -> (Option<&'static str>, bool, usize, Option<&'static str>) {
         let n = tags.len();
         let mut toks = [TokenTag::Eof; MAXN];
         toks[..n].copy_from_slice(tags);
@@ -475,7 +526,8 @@ pub mod u12 {
             (Err(_), Some(_)) => Some("parser rejects a string the reference accepts"),
             (Err(_), None) => None,
         };
-        (verdict, want.is_some(), hw)
+        let nl = leading_newlines(tags, &got, &p);
+        (verdict, want.is_some(), hw, nl)
     }
 
     /// keep the 12 examples with the fewest tokens
@@ -499,7 +551,11 @@ pub mod u12 {
     }
 
     fn dfs(s: &mut Vec<TokenTag>, maxn: usize, right_assoc: bool, rep: &mut Report) {
-        let (verdict, accepted, hw) = run_one(s, right_assoc);
+        let (verdict, accepted, hw, nl) = run_one(s, right_assoc);
+        if let Some(why) = nl {
+            rep.n_mismatch_nl += 1;
+            keep_shortest(&mut rep.mismatch_nl, format!("{}: {}", s.iter().map(|t| format!("{:?}", t)).collect::<Vec<_>>().join(" "), why));
+        }
         rep.runs += 1;
         rep.covered_strings += 1.0;
         if accepted {
@@ -562,7 +618,11 @@ pub mod u12 {
         }
         let mut total = Report::default();
         // the empty string
-        let (v, acc, _) = run_one(&[], right_assoc);
+        let (v, acc, _, nl0) = run_one(&[], right_assoc);
+        if let Some(why) = nl0 {
+            total.n_mismatch_nl += 1;
+            total.mismatch_nl.push(format!("<empty>: {}", why));
+        }
         total.runs += 1;
         total.covered_strings += 1.0;
         if acc { total.accepted += 1 } else { total.rejected += 1 }
@@ -579,14 +639,16 @@ pub mod u12 {
             total.rejected += r.rejected;
             total.n_mismatch_plain += r.n_mismatch_plain;
             total.n_mismatch_neg += r.n_mismatch_neg;
+            total.n_mismatch_nl += r.n_mismatch_nl;
+            for m in r.mismatch_nl { keep_shortest(&mut total.mismatch_nl, m) }
             for m in r.mismatch_plain { keep_shortest(&mut total.mismatch_plain, m) }
             for m in r.mismatch_neg { keep_shortest(&mut total.mismatch_neg, m) }
         }
         let q = |v: &Vec<String>| v.iter().map(|m| format!("{:?}", m)).collect::<Vec<_>>().join(",");
         println!(
-            "{{\"maxn\":{},\"alphabet\":{},\"runs\":{},\"covered_strings\":{},\"accepted\":{},\"accepted_maxlen\":{},\"rejected\":{},\"n_mismatch_plain\":{},\"n_mismatch_neg\":{},\"mismatch_plain\":[{}],\"mismatch_neg\":[{}]}}",
+            "{{\"maxn\":{},\"alphabet\":{},\"runs\":{},\"covered_strings\":{},\"accepted\":{},\"accepted_maxlen\":{},\"rejected\":{},\"n_mismatch_plain\":{},\"n_mismatch_neg\":{},\"mismatch_plain\":[{}],\"mismatch_neg\":[{}],\"n_mismatch_nl\":{},\"mismatch_nl\":[{}]}}",
             maxn, ALPHABET.len(), total.runs, total.covered_strings, total.accepted, total.accepted_maxlen, total.rejected,
-            total.n_mismatch_plain, total.n_mismatch_neg, q(&total.mismatch_plain), q(&total.mismatch_neg)
+            total.n_mismatch_plain, total.n_mismatch_neg, q(&total.mismatch_plain), q(&total.mismatch_neg), total.n_mismatch_nl, q(&total.mismatch_nl)
         );
     }
 }
